@@ -514,7 +514,7 @@ def run(tier, seed, replay, extra):
         r.assume("generator binaries taken from VERIF_GENERATOR_BIN_DIR=%s" % bindir)
     else:
         bindir = vlib.build_generators(work)
-    n = r.n(6, 40)
+    n = r.n(8, 40)
     for a in extra:
         if a.startswith("--runs="):
             n = int(a.split("=")[1])
